@@ -10,6 +10,8 @@ operators -> decay rates of <n_q>, <a_q>, reduced rho_11 / rho_01, trace/hermiti
 rejection clauses; a direct qutip.mesolve run on the real (H, c_ops) for small cases and for random compiled circuits
 with combinations of the shipped noise models.
 """
+import contextlib
+import io
 import json
 import math
 import os
@@ -167,7 +169,7 @@ def _impl_noise(inp):
     from qutip import destroy, num
     from qutip_qip.noise import RelaxationNoise
     dims = list(inp["dims"])
-    with warnings.catch_warnings():
+    with warnings.catch_warnings(), contextlib.redirect_stdout(io.StringIO()):
         warnings.simplefilter("ignore")
         try:
             rn = RelaxationNoise(_cp(inp["t1"]), _cp(inp["t2"]), targets=_cp(inp.get("targets")))
@@ -203,7 +205,7 @@ def _impl_processor(inp):
     """Processor(N, dims, t1, t2).get_qobjevo(noisy=True) -> ("Ok", H0, [full c_op matrices]) | ("Raised", type)"""
     from qutip_qip.device import Processor
     dims = list(inp["dims"])
-    with warnings.catch_warnings():
+    with warnings.catch_warnings(), contextlib.redirect_stdout(io.StringIO()):
         warnings.simplefilter("ignore")
         try:
             p = Processor(len(dims), dims=dims, t1=_cp(inp["t1"]), t2=_cp(inp["t2"]))
@@ -486,7 +488,7 @@ def _run_combo(inp, fail):
         kw["t1"] = inp["t1"]
     if inp["t2"] is not None:
         kw["t2"] = inp["t2"]
-    with warnings.catch_warnings():
+    with warnings.catch_warnings(), contextlib.redirect_stdout(io.StringIO()):
         warnings.simplefilter("ignore")
         if inp["device"] == "linear":
             p = LinearSpinChain(n, **kw)
